@@ -111,6 +111,7 @@ pub struct Encoded {
     pub decisions: Vec<Decision>,
     pub regions: Vec<Region>,
     pub features: BTreeMap<&'static str, u32>,
+    pub elseif_flag_taken: Vec<String>,
 }
 
 impl Encoded {
@@ -186,13 +187,14 @@ pub fn encode_with(u: &Universe, e: &Entry, tape: &[u8], forced: &BTreeMap<Strin
     let decisions = std::mem::take(&mut w.decisions);
     let regions = std::mem::take(&mut w.regions);
     let features = std::mem::take(&mut w.features);
+    let elseif_flag_taken = std::mem::take(&mut w.elseif_flag_taken);
     let body = w.into_body();
     let Some(mut frame) = header(e, body.len()) else {
         return Err(EncodeError::NotCanonical(format!("body of {} bytes does not fit the header form", body.len())));
     };
     let header_len = frame.len();
     frame.extend_from_slice(&body);
-    Ok(Encoded { frame, header_len, trace, decisions, regions, features })
+    Ok(Encoded { frame, header_len, trace, decisions, regions, features, elseif_flag_taken })
 }
 
 pub fn encode(u: &Universe, e: &Entry, tape: &[u8], forced: &BTreeMap<String, u32>) -> Result<Encoded, EncodeError> {
